@@ -3,6 +3,7 @@ package harness
 import (
 	"fmt"
 	"sort"
+	"sync"
 	"testing"
 
 	"github.com/kelindar/column"
@@ -76,7 +77,7 @@ func expectedPuts(m *Model, spec TxnSpec, res []StepResult, pre map[uint32]MRow,
 func TestC19(t *testing.T) {
 	rapid.Check(t, func(t *rapid.T) {
 		sch := genSchema(t, SchemaCfg{Key: 1, Merges: true, EnsureLenMerge: true, MinCols: 1, MaxCols: 3,
-			Kinds: []Kind{KInt, KInt16, KInt32, KInt64, KUint, KUint16, KUint32, KUint64, KFloat32, KFloat64, KString, KString}})
+			Kinds: []Kind{KInt, KInt16, KInt32, KInt64, KUint, KUint16, KUint32, KUint64, KFloat32, KFloat64, KString, KString, KBool, KEnum, KRecord}})
 		mc := NewMachine("C19", sch, column.Options{})
 		defer mc.Close()
 		defer mc.Guard(t)
@@ -145,6 +146,56 @@ func TestC19(t *testing.T) {
 					}
 				}
 				kind := sch.Cols[tr.Col].Kind
+				if kind == KBool {
+					// A bool column encodes "store false" and "row deleted" as the same operation, so a
+					// trigger on it cannot tell them apart: stores of true must be reported as stores of
+					// true, stores of false and row deletions as one delete each.
+					rows := map[uint32]bool{}
+					for off := range want {
+						rows[off] = true
+					}
+					for off := range gotPuts {
+						rows[off] = true
+					}
+					for off := range gotDel {
+						rows[off] = true
+					}
+					for off := range deleted {
+						rows[off] = true
+					}
+					for off := range rows {
+						wantTrue, wantFalse := 0, 0
+						for _, c := range want[off] {
+							if c.Has && c.V.B != 0 {
+								wantTrue++
+							} else {
+								wantFalse++
+							}
+						}
+						for _, v := range gotPuts[off] {
+							if v.B == 0 {
+								mc.fail(t, "trigger %s on bool column %s: row %d: a store was reported with the value false as an upsert", tr.Name, sch.Cols[tr.Col].Name, off)
+							}
+						}
+						if deleted[off] {
+							if gotDel[off] < 1 || gotDel[off] > 1+wantFalse || len(gotPuts[off]) > wantTrue {
+								mc.fail(t, "trigger %s on bool column %s: row %d was deleted by the transaction (which also stored true %d and false %d time(s) into it): %d delete(s) and %d store(s) of true reported", tr.Name, sch.Cols[tr.Col].Name, off, wantTrue, wantFalse, gotDel[off], len(gotPuts[off]))
+							}
+							continue
+						}
+						if len(gotPuts[off]) != wantTrue || gotDel[off] != wantFalse {
+							mc.fail(t, "trigger %s on bool column %s: row %d: the transaction committed %d store(s) of true and %d of false; the trigger was called %d time(s) with true and %d time(s) with false/delete", tr.Name, sch.Cols[tr.Col].Name, off, wantTrue, wantFalse, len(gotPuts[off]), gotDel[off])
+						}
+						if wantTrue+wantFalse >= 2 {
+							mc.flag("several-stores-one-row")
+						}
+					}
+					if len(deleted) > 0 {
+						interesting = true
+						mc.flag("delete-with-trigger")
+					}
+					continue
+				}
 				for off, w := range want {
 					if deleted[off] {
 						continue // stores into a row the same transaction deletes: not judged
@@ -255,7 +306,7 @@ func TestC19(t *testing.T) {
 				}
 				var cols []int
 				for i, cs := range sch.Cols {
-					if cs.Kind != KKey && cs.Kind != KBool {
+					if cs.Kind != KKey {
 						cols = append(cols, i)
 					}
 				}
@@ -358,4 +409,108 @@ func renderVals(k Kind, vs []Value) []string {
 	}
 	sort.Strings(out[:0])
 	return out
+}
+
+// ---------------------------------------------------------------------------
+// TestC19Parallel: triggers (and indexes) are CREATED concurrently by several goroutines
+// (common start barrier), the history then continues sequentially: one committed store and
+// one committed row deletion must reach every trigger exactly once, every trigger can be
+// dropped, and a dropped trigger is never called again. Schedule-independent oracle at
+// quiescence; many short rounds per case because the window of a lost registration is small.
+// ---------------------------------------------------------------------------
+
+func TestC19Parallel(t *testing.T) {
+	rapid.Check(t, func(t *rapid.T) {
+		creators := rapid.IntRange(2, 8).Draw(t, "creators")
+		rounds := rapid.IntRange(100, 600).Draw(t, "rounds")
+		withIndexes := rapid.Bool().Draw(t, "indexes-too")
+		c := column.NewCollection(column.Options{Capacity: 64, Vacuum: 24 * 3600 * 1e9})
+		defer c.Close()
+		c.CreateColumn("a", column.ForInt())
+		c.CreateColumn("b", column.ForString())
+		cols := []string{"a", "b"}
+		var keep uint32
+		c.Query(func(txn *column.Txn) error {
+			keep, _ = txn.Insert(func(r column.Row) error { r.SetInt("a", 0); r.SetString("b", ""); return nil })
+			return nil
+		})
+		type trig struct {
+			name    string
+			col     string
+			puts    int
+			dels    int
+			bad     string
+			dropped bool
+		}
+		for round := 0; round < rounds; round++ {
+			trigs := make([]*trig, creators)
+			errs := make([]error, creators)
+			start := make(chan struct{})
+			var wg sync.WaitGroup
+			for g := 0; g < creators; g++ {
+				tr := &trig{name: fmt.Sprintf("t%d_%d", round, g), col: cols[(g+round)%2]}
+				trigs[g] = tr
+				wg.Add(1)
+				go func(g int) {
+					defer wg.Done()
+					<-start
+					if withIndexes && g%3 == 2 {
+						// an index created beside the triggers (same registry)
+						errs[g] = c.CreateIndex(tr.name, "a", func(r column.Reader) bool { return r.Int() > 5 })
+						return
+					}
+					errs[g] = c.CreateTrigger(tr.name, tr.col, func(r column.Reader) {
+						switch {
+						case tr.dropped:
+							tr.bad = "called after DropTrigger"
+						case r.IsDelete():
+							tr.dels++
+						case r.IsUpsert():
+							tr.puts++
+							if tr.col == "a" && r.Int() != round+1 || tr.col == "b" && r.String() != fmt.Sprint("v", round) {
+								tr.bad = "called with a value that was not stored"
+							}
+						}
+					})
+				}(g)
+			}
+			close(start)
+			wg.Wait()
+			for g, err := range errs {
+				if err != nil {
+					t.Fatalf("C19 violated (round %d): creating %s beside %d other concurrent creations failed: %v", round, trigs[g].name, creators-1, err)
+				}
+			}
+			// one committed store per column on a kept row, one inserted-and-deleted row
+			var victim uint32
+			c.Query(func(txn *column.Txn) error {
+				victim, _ = txn.Insert(func(r column.Row) error { return nil })
+				return txn.QueryAt(keep, func(r column.Row) error { r.SetInt("a", round+1); r.SetString("b", fmt.Sprint("v", round)); return nil })
+			})
+			c.DeleteAt(victim)
+			for g, tr := range trigs {
+				isIndex := withIndexes && g%3 == 2
+				if !isIndex && (tr.puts != 1 || tr.dels != 1 || tr.bad != "") {
+					t.Fatalf("C19 violated (round %d, %d triggers/indexes created concurrently): trigger %s on column %s was called %d time(s) for the one committed store and %d time(s) for the one committed row deletion %s", round, creators, tr.name, tr.col, tr.puts, tr.dels, tr.bad)
+				}
+				var err error
+				if isIndex {
+					err = c.DropIndex(tr.name)
+				} else {
+					err = c.DropTrigger(tr.name)
+				}
+				if err != nil {
+					t.Fatalf("C19 violated (round %d, %d triggers/indexes created concurrently): %s was created successfully but cannot be dropped: %v", round, creators, tr.name, err)
+				}
+				tr.dropped = true
+			}
+			c.QueryAt(keep, func(r column.Row) error { r.SetInt("a", -1); r.SetString("b", "after-drop"); return nil })
+			for _, tr := range trigs {
+				if tr.bad != "" {
+					t.Fatalf("C19 violated (round %d): trigger %s: %s", round, tr.name, tr.bad)
+				}
+			}
+		}
+		RecordCase("C19", fmt.Sprintf("parallel creation: %d creators x %d rounds indexes=%v", creators, rounds, withIndexes), true, "concurrent-trigger-creation")
+	})
 }
